@@ -560,7 +560,7 @@ func TestVerif_C12_UDPMuxModel(t *testing.T) {
 				owner[canon] = c
 			case "inbound":
 				src := c12Sources[rapid.IntRange(0, len(c12Sources)-1).Draw(rt, "src")]
-				kind := rapid.SampledFrom([]string{"stun-registered", "stun-registered", "stun-unregistered", "stun-empty-ufrag", "stun-nousername", "stun-garbage", "data", "data", "stun-success-xor-mapped"}).Draw(rt, "kind")
+				kind := rapid.SampledFrom([]string{"stun-registered", "stun-registered", "stun-unregistered", "stun-empty-ufrag", "stun-nousername", "stun-garbage", "data", "data", "stun-success-xor-mapped", "data-oversize"}).Draw(rt, "kind")
 				var data []byte
 				ufrag := ""
 				switch kind {
@@ -592,6 +592,14 @@ func TestVerif_C12_UDPMuxModel(t *testing.T) {
 					data = data[:len(data)-3] // length field no longer matches: undecodable but STUN-looking
 				case "data":
 					data = append([]byte{0x80, byte(i)}, []byte("application-data")...)
+				case "data-oversize":
+					// longer than the mux passes on (8192): "byte-identical" or dropped, never cut off
+					data = make([]byte, rapid.SampledFrom([]int{8193, 8194, 9000, 12000}).Draw(rt, "oversize"))
+					data[0] = 0x80
+					for k := 1; k < len(data); k++ {
+						data[k] = byte(k)
+					}
+					lbl["oversized-datagram"] = true
 				}
 				canon := c12Canon(src)
 				var want *c12ModelConn
@@ -603,7 +611,7 @@ func TestVerif_C12_UDPMuxModel(t *testing.T) {
 				if muxClose {
 					want = nil
 				}
-				if want != nil && want.open > 0 {
+				if want != nil && want.open > 0 && kind != "data-oversize" {
 					want.expect = append(want.expect, c12In{data, src})
 				}
 				if want != nil && owner[canon] == nil {
